@@ -13,7 +13,7 @@
 From Coq Require Import List ZArith Permutation Sorting.
 From TskVerif Require Import Base.Common Gen.Generated C12.Model C12.BytesProofs C12.Unfold C12.ShapeProofs C12.RoundTripProofs
   C12.LayoutProofs C12.OrderProofs C12.ExhaustProofs C12.ValidProofs C12.JsonProofs C12.NormProofs
-  C12.StringProofs.
+  C12.StringProofs C12.TotalProofs C12.NumpyProofs.
 Import ListNotations.
 Open Scope Z_scope.
 
@@ -45,6 +45,20 @@ Theorem struct_roundtrip : forall round32 widen32 s, rt_ok s = true -> shape_ok 
   forall fuel v bs rest, valid s v = true -> encode round32 s v = EOk bs ->
   decode widen32 fuel s (bs ++ rest) = DOk (norm round32 widen32 s v) rest.
 Proof. exact struct_roundtrip_gen. Qed.
+
+(* encode is total on the validated domain: [in_domain] = every leaf inside the documented range
+   of its binaryFormat (integer range, no float into an integer format, no binary32 overflow, 'c'
+   one byte, array lengths as the mode demands) — so the round trip needs no "that encodes" *)
+Theorem encode_total : forall round32 s, shape_ok s = true ->
+  forall v, valid s v = true -> in_domain round32 s v = true -> exists bs, encode round32 s v = EOk bs.
+Proof. exact TotalProofs.encode_total. Qed.
+
+Theorem struct_roundtrip_total : forall round32 widen32 s,
+  rt_ok s = true -> shape_ok s = true ->
+  forall v, valid s v = true -> in_domain round32 s v = true ->
+  exists bs, encode round32 s v = EOk bs /\
+             forall fuel rest, decode widen32 fuel s (bs ++ rest) = DOk (norm round32 widen32 s v) rest.
+Proof. exact TotalProofs.struct_roundtrip_total. Qed.
 
 (* validate_and_encode_row then decode_row, top level "object" or ["object","null"] *)
 Theorem struct_roundtrip_row : forall round32 widen32 t v bs fuel,
@@ -128,6 +142,19 @@ Theorem numpy_dtype_sizes_agree :
   forallb dtype_ok c12_format_to_dtype = true /\
   map fst c12_format_to_dtype = map bchar (BBool :: map BInt all_ifmt ++ [BFloat; BDouble; BChar]).
 Proof. exact format_to_dtype_agrees. Qed.
+
+(* numpy structured view (numpy_dtype on the ordered schema, FORMAT_TO_DTYPE regenerated): for every
+   schema it accepts, the leaves of the packed dtype have, in memory order, the sizes of the
+   encoded leaves in encoding order, the itemsize is the size of an encoded row, and each leaf
+   starts at the running sum of the sizes before it — i.e. exactly where encode put it *)
+Theorem numpy_view_agrees : forall s d, np_dtype s = NOk d ->
+  flat_sizes s = Some (dt_flat d) /\ fixed_size s = Some (dt_itemsize d) /\ dt_itemsize d = zsum (dt_flat d).
+Proof. exact NumpyProofs.numpy_view_agrees. Qed.
+
+Theorem numpy_offsets_are_struct_offsets : forall s d l,
+  np_dtype s = NOk d -> flat_sizes s = Some l ->
+  offs (dt_layout d 0) = prefix_sums 0 l /\ sizes (dt_layout d 0) = l /\ dt_itemsize d = zsum l.
+Proof. exact NumpyProofs.numpy_offsets_are_struct_offsets. Qed.
 
 (* ---- (c) termination / consumption ---- *)
 Theorem decode_consumes : forall widen32 s fuel buf v rest,
